@@ -173,6 +173,22 @@ CLAIMED = {
              "(bounded by SNDHWM in the code, matched by pattern) are outside the theorems and measured by the scenarios only.",
         note=COMMON_NOTE + "Timing oracles allow 600 ms of slack; kernel buffers are pinned with SNDBUF/RCVBUF in most scenarios.",
         design="§8 C14"),
+    "C15": dict(
+        engine="M8 Linger + M3 Session + M1 Wire",
+        technique="Lean 4 theorems: the linger decision (first check that ends the phase, by induction over the check index with fuel), "
+                  "prefix-safety of whatever the session had written at close composed from the C01 wire-order invariant and the C03 prefix-"
+                  "monotone decoder, and the NEGATION of the full statement with an explicit witness for the code as it is; tie: translator "
+                  "re-extracts the linger check, the events on which sessions stop and whether they flush (theorems `source_shape`, "
+                  "`sessions_as_they_are`), stack scenarios on real sockets closed right after 0..20000 sends",
+        text="Proof over the models: LINGER 0 ends the linger phase at the first check; a bounded LINGER ends it within LINGER + one 100 ms tick "
+             "and earlier only because the pipes were empty; LINGER -1 ends it only when the pipes are empty; whatever the moment of the close "
+             "and however far the last write got, the peer decodes only a prefix of the accepted messages' frames (never a truncated or "
+             "corrupted one); a session that flushed on stop would deliver everything (`linger_delivers_all_partial`). The full statement "
+             "'everything accepted is transmitted when LINGER allows' is FALSE of the code and proved so (`linger_loses_what_the_session_holds`): "
+             "sessions stop when close() begins and drop what they hold - KNOWN FINDING C15:linger-sessions-drop-what-they-hold, replayed on "
+             "every run (50 small messages, LINGER 10 s, term(): none arrives). 9 theorems. Partial by nature of the finding.",
+        note=COMMON_NOTE + "The timing oracle allows LINGER + 2.5 s; term()'s own 10 s straggler allowance is outside LINGER.",
+        design="§8 C15"),
     "C17": dict(
         engine="M6 Routing + M7 Lifecycle",
         technique="Lean 4 arithmetic theorems for both back-off schedules over all (RECONNECT_IVL, RECONNECT_IVL_MAX, attempt); decision-table "
